@@ -10,4 +10,8 @@ def jobs(tier, ctx):
                         inputs='presence, iflags, text_start, queued bytes (<=%d per user) of each slot' % txt,
                         assumptions=['hook verif_cmd_cursor positions the rotating cursor (add-only, guarded)', 'output pending = 0 (flush path is C14); no NOECHO (termios path cut); no backspace/delete bytes (C13)',
                                      'the per-cycle grant loop of backend() and command() are outside this step (argued in DESIGN 5/C12)']))
+    out.append(dict(name='set_call', srcs=['@harness/C12/set_call.c'], stubs=['@world/world_base.c', '@world/libc_models.c', '@harness/C13/stubs_decoder.c', '@harness/C12/stubs.c'], unwind=8, cuts=['add_message', 'add_vmessage', 'flush_message'], nobody_ok=['*'],
+                    targets=['set_call'], timeout=300, mem_gb=6, opt_witness=['installed'],
+                    desc='set_call (input_to / get_char) with ANY flag word from LPC on a connection with ANY iflags: only I_NOECHO, I_NOESC, I_SINGLE_CHAR can be set; the scheduling flags (HAS_CMD_TURN, CMD_IN_BUF) and every other internal bit keep their value',
+                    inputs='flag word, connection flags, pending input_to', assumptions=['network user (not the console slot); output path cut to counting stubs']))
     return out
